@@ -58,7 +58,8 @@ Qed.
 (* general fit with ARBITRARY basis functions g0 g1 g2 (function values called through [call]),
    non-empty data of any length, any stored sums: in the three-function branch the residuals
    are orthogonal to every basis function; in the two-function branch (third function null:
-   sum of g2^2 below TOL) the 2x2 normal equations hold *)
+   sum of g2^2 below TOL) the 2x2 normal equations hold; all three refusal branches.
+   The hypotheses about [call] are satisfiable: see C17_menu_instances (concrete interpreter) *)
 Theorem C17_general_normal_equations :
   forall (call : val R -> list (val R) -> val R) i0 i1 i2 e0 e1 e2 (g0 g1 g2 : R -> R),
   (forall x, call (VFun i0 e0) [VFloat x] = VFloat (g0 x)) ->
@@ -81,13 +82,18 @@ Theorem C17_general_normal_equations :
       exists a b, res = VTuple [VFloat a; VFloat b; VFloat zero_lit]
                   /\ a * m + b * p = u /\ a * p + b * r = v)
   /\ (TOL <= Rabs t -> TOL <= Rabs (m * r * t) -> Rabs (gen_det m p q r s t) < TOL ->
+      res = VErr ZeroDivisionError)
+  /\ (TOL <= Rabs t -> Rabs (m * r * t) < TOL -> res = VErr ZeroDivisionError)
+  /\ (Rabs t < TOL -> TOL <= Rabs m -> TOL <= Rabs r -> Rabs (gen_det2 m p r) < TOL ->
       res = VErr ZeroDivisionError).
 Proof.
   intros call i0 i1 i2 e0 e1 e2 g0 g1 g2 H0 H1 H2 x xs y ys Hl P Q Rr S T U V W N. cbv zeta.
-  split; [| split].
+  split; [| split; [| split; [| split]]].
   - exact (general_least_squares3 call i0 i1 i2 e0 e1 e2 g0 g1 g2 H0 H1 H2 x xs y ys Hl P Q Rr S T U V W N).
   - exact (general_least_squares2 call i0 i1 i2 e0 e1 e2 g0 g1 g2 H0 H1 H2 x xs y ys Hl P Q Rr S T U V W N).
   - exact (proj2 (proj2 (general_refused call i0 i1 i2 e0 e1 e2 g0 g1 g2 H0 H1 H2 x xs y ys Hl P Q Rr S T U V W N))).
+  - exact (proj1 (proj2 (general_refused call i0 i1 i2 e0 e1 e2 g0 g1 g2 H0 H1 H2 x xs y ys Hl P Q Rr S T U V W N))).
+  - exact (proj1 (general_refused call i0 i1 i2 e0 e1 e2 g0 g1 g2 H0 H1 H2 x xs y ys Hl P Q Rr S T U V W N)).
 Qed.
 
 (* general fit with the basis (x^2, x, 1) returns the quadratic fit *)
@@ -140,10 +146,13 @@ Theorem C17_correlation : forall xs ys, length xs = length ys -> 0 < var_x xs ->
     /\ CurveFitting_correlation_coeff Rops (cf_of xs (map Ropp ys)) = VFloat (- r).
 Proof. exact correlation_of_data'. Qed.
 
-(* input forms (two points, symbolic real entries): separate lists (a longer one truncated),
+(* input forms (TWO points with symbolic real entries, plus separate lists of three; the copy
+   constructor on one literal object; nothing is proved about __init__/set for more points): separate lists (a longer one truncated),
    tuples, interleaved scalars (an odd trailing value dropped) and the copy constructor all
    store the same object; a single pair is refused *)
 Theorem C17_input_forms : forall x0 x1 y0 y1 z,
+  CurveFitting___init__ Rops blank (VTuple [VList [VFloat x0; VFloat x1; VFloat z]; VList [VFloat y0; VFloat y1; VFloat z]])
+    = cf_of [x0; x1; z] [y0; y1; z] /\
   CurveFitting___init__ Rops blank (VTuple [VList [VFloat x0; VFloat x1]; VList [VFloat y0; VFloat y1; VFloat z]])
     = cf_of [x0; x1] [y0; y1]
   /\ CurveFitting___init__ Rops blank (VTuple [VTuple [VFloat x0; VFloat x1]; VTuple [VFloat y0; VFloat y1]])
@@ -156,9 +165,9 @@ Theorem C17_input_forms : forall x0 x1 y0 y1 z,
   /\ CurveFitting___init__ Rops blank (VTuple [VList [VFloat x0]; VList [VFloat y0]]) = VErr ValueError.
 Proof.
   intros x0 x1 y0 y1 z.
-  exact (conj (ctor_lists_truncated x0 x1 y0 y1 z) (conj (ctor_tuples2 x0 x1 y0 y1)
+  exact (conj (ctor_lists3 x0 x1 z y0 y1 z) (conj (ctor_lists_truncated x0 x1 y0 y1 z) (conj (ctor_tuples2 x0 x1 y0 y1)
         (conj (ctor_interleaved2 x0 x1 y0 y1) (conj (ctor_interleaved2_odd x0 x1 y0 y1 z)
-        (conj ctor_copy (ctor_one_pair x0 y0)))))).
+        (conj ctor_copy (ctor_one_pair x0 y0))))))).
 Qed.
 
 (* collinear data y = al*x + be (al <> 0, abscissae not all equal): r is exactly +1 or -1 *)
@@ -208,6 +217,28 @@ Theorem C17_noiseless_recovered : forall xs a b c,
       CurveFitting_quadratic_fitting Rops (cf_of xs (map (quadf a b c) xs)) = VTuple [VFloat a; VFloat b; VFloat c]).
 Proof. intros xs a b c. split; [exact (linear_recovers xs a b) | exact (quadratic_recovers xs a b c)]. Qed.
 
+(* non-vacuity: with the concrete interpreter C17_more.menu_call of the menu ids (1 null, 2 one,
+   3 x, 4 x^2) the two comparison theorems hold without any hypothesis about function values;
+   C17_more.linear_concrete / guard_satisfiable give a data set on which the guards pass *)
+Theorem C17_menu_instances : forall x xs y ys, length xs = length ys ->
+  let X := x :: xs in let Y := y :: ys in
+  (TOL <= Rabs (quad_det (nR X) (Sx X) (Sx2 X) (Sx3 X) (Sx4 X)) ->
+   TOL <= Rabs (Sx4 X * Sx2 X * nR X) ->
+   exists a b c,
+     CurveFitting_quadratic_fitting Rops (cf_of X Y) = VTuple [VFloat a; VFloat b; VFloat c]
+     /\ CurveFitting_general_fitting (RopsC menu_call) (cf_of X Y) (VFun 4 []) (VFun 3 []) (VFun 2 [])
+        = VTuple [VFloat a; VFloat b; VFloat c])
+  /\ (TOL <= Rabs (lin_det (nR X) (Sx X) (Sx2 X)) -> TOL <= Sx2 X ->
+      exists a b,
+        CurveFitting_linear_fitting Rops (cf_of X Y) = VTuple [VFloat a; VFloat b]
+        /\ CurveFitting_general_fitting (RopsC menu_call) (cf_of X Y) (VFun 3 []) (VFun 2 []) (VFun 1 [])
+           = VTuple [VFloat a; VFloat b; VFloat zero_lit]).
+Proof.
+  intros x xs y ys Hl. split.
+  - exact (menu_general_eq_quadratic x xs y ys Hl).
+  - exact (menu_general_eq_linear x xs y ys Hl).
+Qed.
+
 Redirect "C17_sums.assumptions" Print Assumptions C17_sums.
 Redirect "C17_linear_normal_equations.assumptions" Print Assumptions C17_linear_normal_equations.
 Redirect "C17_quadratic_normal_equations.assumptions" Print Assumptions C17_quadratic_normal_equations.
@@ -222,3 +253,4 @@ Redirect "C17_correlation_rescaling.assumptions" Print Assumptions C17_correlati
 Redirect "C17_permutation_invariance.assumptions" Print Assumptions C17_permutation_invariance.
 Redirect "C17_general_permutation_invariance.assumptions" Print Assumptions C17_general_permutation_invariance.
 Redirect "C17_noiseless_recovered.assumptions" Print Assumptions C17_noiseless_recovered.
+Redirect "C17_menu_instances.assumptions" Print Assumptions C17_menu_instances.
